@@ -127,6 +127,11 @@ impl TrickyStr {
     pub fn from(_s: &str) -> u8 { 0 }
 }
 
+/// a payload type whose `Default` panics: it sits on disabled variants only, whose payloads nothing may build
+#[derive(Debug, Clone, PartialEq)]
+pub struct PanicDefault(pub u8);
+impl Default for PanicDefault { fn default() -> Self { panic!("Default of a disabled variant's payload was evaluated") } }
+
 /// Debug, no Display
 #[derive(Debug, Clone, PartialEq)]
 pub struct DbgOnly(pub u8);
@@ -364,7 +369,10 @@ fn obs<E, I: Iterator<Item = E> + ExactSizeIterator>(it: &I) -> (i64, i64, i64) 
 #[derive(Clone, Copy)]
 pub enum ItOp { Next, NextBack, Nth(usize, bool), NthBack(usize, bool) }
 fn op_name(op: ItOp) -> (&'static str, usize, bool, &'static str) {
-    let big = |n: usize| if n == usize::MAX { "max" } else if n == usize::MAX - 1 { "max1" } else { "" };
+    let big = |n: usize| if n == usize::MAX { "max" } else if n == usize::MAX - 1 { "max1" }
+        else if n == 1usize << 8 { "2^8" } else if n == (1usize << 8) + 1 { "2^8+1" } else if n == 1usize << 16 { "2^16" }
+        else if n == (1usize << 16) + 2 { "2^16+2" } else if n == 1usize << 32 { "2^32" } else if n == (1usize << 32) + 1 { "2^32+1" }
+        else if n == (usize::MAX >> 1) + 1 { "2^63" } else { "" };
     match op {
         ItOp::Next => ("next", 0, false, ""),
         ItOp::NextBack => ("next_back", 0, false, ""),
@@ -394,7 +402,12 @@ where I: Iterator<Item = E> + DoubleEndedIterator + ExactSizeIterator + Clone {
 pub fn it_args(n_enabled: usize) -> Vec<ItOp> {
     let mut v = vec![ItOp::Next, ItOp::NextBack];
     for k in 0..=(n_enabled + 1) { v.push(ItOp::Nth(k, false)); v.push(ItOp::NthBack(k, false)); }
-    for k in [usize::MAX - 1, usize::MAX] { v.push(ItOp::Nth(k, true)); v.push(ItOp::NthBack(k, true)); }
+    // arguments far beyond the end: the extremes, and values whose low bits are small (an argument cut down to a narrower integer
+    // would look harmless); all of them exceed every enum of the corpus that is explored with this list
+    for k in [usize::MAX - 1, usize::MAX, 1usize << 8, (1usize << 8) + 1, 1usize << 16, (1usize << 16) + 2, 1usize << 32, (1usize << 32) + 1,
+              (usize::MAX >> 1) + 1] {
+        if k > n_enabled + 1 { v.push(ItOp::Nth(k, true)); v.push(ItOp::NthBack(k, true)); }
+    }
     v
 }
 fn log_new<E: Probe, I>(o: &mut Out, def: u32, prof: &str, h: u32, it: &I)
